@@ -48,7 +48,7 @@ fn palette_forms() -> Vec<Result<String, Cell>> {
         Ok("(call/cc (lambda (k) k))".into()),
         Ok("let".into()),
         Ok("(if #f #f)".into()),
-        Ok("1000000".into()),
+        Ok("100000".into()),
         Ok("#t".into()),
     ]
 }
